@@ -578,7 +578,7 @@ def run_multikey_part(ctx):
     nrand = ctx.n(2000, 100000)
     nchunks = ctx.n(8, 64)
     tasks = [('random', (ctx.seed, c, nrand // nchunks, 40, ctx.driver_ok)) for c in range(nchunks)]
-    lengths = {'multi+unique': ctx.n(4, 6), 'oneN+unique+multi': ctx.n(4, 5), 'unique+unique': ctx.n(4, 6)}
+    lengths = {'multi+unique': ctx.n(4, 6), 'oneN+unique+multi': ctx.n(4, 5), 'unique+unique': ctx.n(4, 5)}
     for cfg, lmax in lengths.items():
         for length in range(1, lmax + 1):
             for first in range(len(EXH_ALPHABET)):
